@@ -658,62 +658,89 @@ Qed.
 (* ------------------------------------------------------------------------------------------ *)
 Definition keeps (st st' : stage) : Prop := s_jump_count st' = s_jump_count st /\ s_max_jumps st' = s_max_jumps st.
 
+(* OAdd (a NEW synthetic row appended by a plan / completion commit) touches no existing row *)
 Definition op_keeps (l : list stage) (o : op) : Prop :=
   match o with
   | OPut i st' => forall st, nth_error l i = Some st -> keeps st st'
   | OMut i f => forall st, keeps st (f st)
+  | OAdd _ => True
   | _ => True
   end.
 
 Definition budget_fields (l : list stage) : list (Z * option Z) := map (fun st => (s_jump_count st, s_max_jumps st)) l.
 
-Lemma budget_fields_set l i st st' :
-  nth_error l i = Some st -> keeps st st' -> budget_fields (list_set l i st') = budget_fields l.
+(* every row of l is still a row of l' (same index) with the same budget fields; l' may have MORE rows (OAdd) *)
+Definition same_rows (l l' : list stage) : Prop :=
+  forall i st, nth_error l i = Some st -> exists st', nth_error l' i = Some st' /\ keeps st st'.
+
+Lemma same_rows_refl l : same_rows l l.
+Proof. intros i st H. exists st. split; [exact H|split; reflexivity]. Qed.
+
+(* the same thing said with lists: the budget fields of l are a prefix of those of l' *)
+Lemma same_rows_prefix l : forall l', same_rows l l' <-> firstn (length l) (budget_fields l') = budget_fields l.
 Proof.
-  revert i. induction l as [|a l IH]; intros [|i] H [K1 K2]; simpl in *; try discriminate.
-  - inversion H; subst. unfold budget_fields. simpl. rewrite K1, K2. reflexivity.
-  - unfold budget_fields in *. simpl. f_equal. apply IH; [exact H|split; assumption].
+  induction l as [|a l IH]; intros l'.
+  - split; [reflexivity|]. intros _ [|i] st H; discriminate H.
+  - split.
+    + intros H. destruct (H 0 a eq_refl) as [a' [Ha [K1 K2]]]. destruct l' as [|b l']; [discriminate Ha|].
+      simpl in Ha. inversion Ha; subst b. unfold budget_fields. simpl. rewrite K1, K2. f_equal.
+      apply IH. intros i st Hi. apply (H (S i) st Hi).
+    + intros H. destruct l' as [|b l']; [discriminate H|]. unfold budget_fields in H. simpl in H. inversion H.
+      intros [|i] st Hi; simpl in Hi.
+      * inversion Hi; subst st. exists b. split; [reflexivity|split; assumption].
+      * simpl. apply (proj2 (IH l')); assumption.
 Qed.
 
-Lemma budget_fields_nth l l' i st :
-  budget_fields l' = budget_fields l -> nth_error l i = Some st ->
-  exists st', nth_error l' i = Some st' /\ keeps st' st.
+Lemma same_rows_app l l' : same_rows l l' <-> exists extra, budget_fields l' = budget_fields l ++ extra.
 Proof.
-  revert l' i. induction l as [|a l IH]; intros [|a' l'] [|i] E H; simpl in *; try discriminate.
-  - inversion H; subst. inversion E. exists a'. split; [reflexivity|split; congruence].
-  - inversion E. apply IH; assumption.
+  rewrite same_rows_prefix. split.
+  - intros H. exists (skipn (length l) (budget_fields l')). rewrite <- H at 1. symmetry. apply firstn_skipn.
+  - intros [extra E]. rewrite E. replace (length l) with (length (budget_fields l) + 0) by (unfold budget_fields; rewrite map_length; lia).
+    rewrite firstn_app_2. simpl. apply app_nil_r.
 Qed.
 
-Lemma op_keeps_step l l' o :
-  budget_fields l' = budget_fields l -> op_keeps l o -> budget_fields (op_stages l' o) = budget_fields l.
+Lemma same_rows_length l l' : same_rows l l' -> length l <= length l'.
 Proof.
-  intros E K. destruct o; simpl in *; try exact E.
-  - destruct (nth_error l' i) as [st'|] eqn:H'.
-    + assert (exists st0, nth_error l i = Some st0 /\ keeps st0 st') as [st0 [H0 K0]].
-      { symmetry in E. destruct (budget_fields_nth l' l i st' E H') as [x [Hx [K1 K2]]]. exists x. split; [exact Hx|split; congruence]. }
-      rewrite <- E. apply budget_fields_set with st'; [exact H'|]. destruct (K st0 H0) as [K1 K2]. destruct K0 as [K3 K4]. split; congruence.
-    + rewrite list_set_none by exact H'. exact E.
-  - destruct (nth_error l' i) as [st'|] eqn:H'; [|exact E].
-    rewrite <- E. apply budget_fields_set with st'; [exact H'|apply K].
+  intros H. destruct l as [|a l]; [simpl; lia|].
+  destruct (nth_error (a :: l) (length l)) as [st|] eqn:E.
+  - destruct (H _ _ E) as [st' [E' _]]. assert (length l < length l') by (apply nth_error_Some; congruence). simpl. lia.
+  - apply nth_error_None in E. simpl in E. lia.
 Qed.
 
-Lemma commit_keeps l c : forall l', budget_fields l' = budget_fields l -> Forall (op_keeps l) c ->
-  budget_fields (stages_after l' c) = budget_fields l.
+Lemma op_keeps_step l l' o : same_rows l l' -> op_keeps l o -> same_rows l (op_stages l' o).
+Proof.
+  intros E K k st Hk. destruct (E k st Hk) as [st' [Hk' Kk]].
+  destruct o as [i p|i f|m|id|x| |c|i jc|id|id|a]; simpl in *; try (exists st'; split; assumption).
+  - destruct (Nat.eq_dec i k) as [->|Hne].
+    + exists p. split; [apply nth_list_set_same with st'; exact Hk'|apply K; exact Hk].
+    + exists st'. split; [rewrite nth_list_set_other by exact Hne; exact Hk'|exact Kk].
+  - destruct (nth_error l' i) as [y|] eqn:Hi; [|exists st'; split; assumption].
+    destruct (Nat.eq_dec i k) as [->|Hne].
+    + rewrite Hk' in Hi. inversion Hi; subst y. exists (f st'). split; [apply nth_list_set_same with st'; exact Hk'|].
+      destruct (K st') as [K1 K2]. destruct Kk as [K3 K4]. split; congruence.
+    + exists st'. split; [rewrite nth_list_set_other by exact Hne; exact Hk'|exact Kk].
+  - exists st'. split; [|exact Kk]. rewrite nth_error_app1; [exact Hk'|]. apply nth_error_Some. congruence.
+Qed.
+
+Lemma commit_keeps l c : forall l', same_rows l l' -> Forall (op_keeps l) c -> same_rows l (stages_after l' c).
 Proof.
   unfold stages_after. induction c as [|o c IH]; simpl; intros l' E H; [exact E|]. inversion H; subst.
   apply IH; [|assumption]. apply op_keeps_step; assumption.
 Qed.
 
-Lemma commits_keep l cs : forall s, budget_fields (w_stages s) = budget_fields l -> Forall (fun c => Forall (op_keeps l) c) cs ->
-  budget_fields (w_stages (apply_commits cs s)) = budget_fields l.
+Lemma commits_keep l cs : forall s, same_rows l (w_stages s) -> Forall (fun c => Forall (op_keeps l) c) cs ->
+  same_rows l (w_stages (apply_commits cs s)).
 Proof.
   induction cs as [|c cs IH]; simpl; intros s E H; [exact E|]. inversion H; subst.
   apply IH; [|assumption]. rewrite stages_apply_commit. apply commit_keeps; assumption.
 Qed.
 
-(* tactic: a commit list built from c_put / c_mark / c_push / c_pushes / OPut with a known row *)
+(* tactic: a commit list built from c_put / c_mark / c_push / c_pushes / OPut with a known row / map OAdd *)
 Lemma keeps_pushes l ms : Forall (op_keeps l) (c_pushes ms).
 Proof. unfold c_pushes. apply Forall_map. apply Forall_forall. intros; exact I. Qed.
+
+Lemma keeps_adds l adds : Forall (op_keeps l) (map OAdd adds).
+Proof. apply Forall_map. apply Forall_forall. intros; exact I. Qed.
 
 Lemma keeps_map_push {A} l (f : A -> msg) xs : Forall (fun c => Forall (op_keeps l) c) (map (fun j => c_push (f j)) xs).
 Proof. apply Forall_map. apply Forall_forall. intros x _. constructor; [exact I|constructor]. Qed.
@@ -726,6 +753,7 @@ Ltac keeps_commit Hs :=
   cbn [txn concat app c_put c_mark c_push c_wf c_cancel c_mutate];
   repeat (first [ apply Forall_nil
                 | apply keeps_pushes
+                | apply keeps_adds
                 | apply Forall_cons; [first [exact I | keeps_put Hs | idtac]|]
                 | apply Forall_app; split ]).
 
@@ -815,10 +843,28 @@ Proof.
   unfold handle_complete_stage. destruct (get_stage s i) as [st|] eqn:Hs; [|constructor].
   destruct (status_eqb (s_status st) NOT_STARTED); [keeps_list Hs|].
   destruct (negb _). { destruct (is_halt (s_status st)); [keeps_list Hs|constructor]. }
-  destruct (status_eqb _ RUNNING); [keeps_list Hs|]. destruct (negb _); [constructor|].
-  destruct (_ || _).
-  - cbn [h_commits ok]. apply Forall_app. split; [apply keeps_join_tracking|]. keeps_list Hs.
-  - keeps_list Hs.
+  cbn zeta.
+  match goal with |- context [if ?c then ok [txn [c_put i (st_touch st); _; _; _]] else _] => destruct c end; [keeps_list Hs|].
+  match goal with |- context [if ?c then ok [c_mark id] else _] => destruct c end; [keeps_list Hs|].
+  match goal with |- context [if ?c then ok [txn [c_put i (st_touch (with_onfail st true)); _; _; _]] else _] => destruct c end;
+    [keeps_list Hs|].
+  match goal with |- context [status_eqb ?x RUNNING] => destruct (status_eqb x RUNNING) end; [keeps_list Hs|].
+  match goal with |- context [if ?c then with_onfail st true else st] => destruct c end;
+    (destruct (negb _); [constructor|]);
+    (destruct (_ || _ || _); [|keeps_list Hs]);
+    cbn [h_commits ok]; (apply Forall_app; split; [apply keeps_join_tracking|]); keeps_list Hs.
+Qed.
+
+Lemma keeps_continue_parent s id i o k : KEEPS s (handle_continue_parent s id i o k).
+Proof.
+  unfold handle_continue_parent. destruct (get_stage s i) as [st|] eqn:Hs; [|constructor].
+  cbn zeta. destruct (existsb _ _). { destruct (negb _); [constructor|keeps_list Hs]. }
+  destruct (negb _).
+  { destruct (_ <=? _)%Z; [destruct (negb _); [constructor|keeps_list Hs]|keeps_list tt]. }
+  destruct o; [|keeps_list tt].
+  destruct (s_tasks st); [|keeps_list tt].
+  destruct (filter (initial_at s) _); [keeps_list tt|].
+  destruct (filter _ (_ :: _)); keeps_list tt.
 Qed.
 
 Lemma keeps_start_if_ready s id i k st0 bypass :
@@ -827,7 +873,7 @@ Proof.
   intros Hs. unfold start_if_ready.
   set (st := if bypass then st_ctl st0 false (s_jump_count st0) (s_buffered st0) (s_signal st0) else st0).
   assert (keeps st0 st) as [K1 K2] by (unfold st; destruct bypass; split; reflexivity).
-  set (zombie := status_eqb (s_status st) RUNNING && (s_plan_pending st || is_nil (s_tasks st))).
+  set (zombie := status_eqb (s_status st) RUNNING && (s_plan_pending st || (is_nil (s_tasks st) && is_nil (children s i)))).
   destruct (negb (start_stage_fresh (s_status st)) && negb zombie); [constructor|].
   destruct (should_skip st); [keeps_list tt|].
   destruct (mutex_blocked s i st); [keeps_list tt|].
@@ -844,7 +890,7 @@ Proof.
     + destruct zombie; [constructor|constructor; [exact I|constructor]].
   - destruct (s_choice st); [apply keeps_map_push|constructor].
   - constructor; [|constructor]. cbn [txn concat app c_put c_mark].
-    constructor; [|constructor; [exact I|apply Forall_app; split; [apply keeps_pushes|constructor]]].
+    constructor; [|apply Forall_app; split; [apply keeps_adds|constructor; [exact I|apply Forall_app; split; [apply keeps_pushes|constructor]]]].
     intros x Hx. unfold get_stage in Hs. rewrite Hs in Hx. inversion Hx; subst x.
     destruct zombie; split; simpl; congruence.
 Qed.
@@ -900,7 +946,7 @@ Proof.
     first [ apply keeps_start_workflow | apply keeps_complete_workflow | apply keeps_cancel_workflow
           | apply keeps_start_stage | apply keeps_complete_stage | apply keeps_skip_stage | apply keeps_cancel_stage
           | apply keeps_start_task | apply keeps_run_task | apply keeps_complete_task | apply keeps_signal_stage
-          | apply keeps_pause_task | apply keeps_resume_stage | apply keeps_restart_stage ].
+          | apply keeps_pause_task | apply keeps_resume_stage | apply keeps_restart_stage | apply keeps_continue_parent ].
 Qed.
 
 (* ------------------------------------------------------------------------------------------ *)
@@ -921,18 +967,40 @@ Proof. destruct p as [[? ?]|]; reflexivity. Qed.
 Lemma stages_apply_commits cs : forall s, w_stages (apply_commits cs s) = fold_left stages_after cs (w_stages s).
 Proof. induction cs as [|c cs IH]; simpl; intros s; [reflexivity|]. rewrite IH, stages_apply_commit. reflexivity. Qed.
 
-(* same budget fields => same count and same effective maximum, for every stage *)
+(* the rows of s are rows of s' with the same budget fields => same count and same effective maximum, for every stage of s *)
 Lemma same_budget s s' :
-  budget_fields (w_stages s') = budget_fields (w_stages s) -> w_max_jumps s' = w_max_jumps s ->
-  forall i, cnt s' i = cnt s i /\ emax s' i = emax s i.
+  same_rows (w_stages s) (w_stages s') -> w_max_jumps s' = w_max_jumps s ->
+  forall i, i < length (w_stages s) -> cnt s' i = cnt s i /\ emax s' i = emax s i.
 Proof.
-  intros E Em i. unfold cnt, emax, get_stage, effective_max_jumps. rewrite Em.
-  destruct (nth_error (w_stages s) i) as [st|] eqn:H.
-  - destruct (budget_fields_nth _ _ _ _ E H) as [st' [H' [K1 K2]]]. rewrite H'. rewrite K1, K2. split; reflexivity.
-  - assert (nth_error (w_stages s') i = None) as H'.
-    { apply nth_error_None. apply nth_error_None in H. assert (length (budget_fields (w_stages s')) = length (budget_fields (w_stages s))) by congruence.
-      unfold budget_fields in *. rewrite !map_length in *. lia. }
-    rewrite H'. split; reflexivity.
+  intros E Em i Hi. unfold cnt, emax, get_stage, effective_max_jumps. rewrite Em.
+  destruct (nth_error (w_stages s) i) as [st|] eqn:H; [|apply nth_error_None in H; lia].
+  destruct (E i st H) as [st' [H' [K1 K2]]]. rewrite H'. rewrite K1, K2. split; reflexivity.
+Qed.
+
+(* same rows (no row added, none changed) => same count and maximum, for every index *)
+Lemma same_stages_budget s s' :
+  w_stages s' = w_stages s -> w_max_jumps s' = w_max_jumps s -> forall i, cnt s' i = cnt s i /\ emax s' i = emax s i.
+Proof. intros E Em i. unfold cnt, emax, get_stage, effective_max_jumps. rewrite E, Em. split; reflexivity. Qed.
+
+(* no op removes a row *)
+Lemma op_stages_length l o : length l <= length (op_stages l o).
+Proof.
+  destruct o; simpl; try lia.
+  - rewrite list_set_length. lia.
+  - destruct (nth_error l i); [rewrite list_set_length|]; lia.
+  - rewrite app_length. simpl. lia.
+Qed.
+
+Lemma stages_after_length c : forall l, length l <= length (stages_after l c).
+Proof.
+  unfold stages_after. induction c as [|o c IH]; simpl; intros l; [lia|].
+  specialize (IH (op_stages l o)). pose proof (op_stages_length l o). lia.
+Qed.
+
+Lemma commits_length cs : forall s, length (w_stages s) <= length (w_stages (apply_commits cs s)).
+Proof.
+  induction cs as [|c cs IH]; simpl; intros s; [lia|]. specialize (IH (apply_commit s c)).
+  rewrite stages_apply_commit in IH. pose proof (stages_after_length c (w_stages s)). lia.
 Qed.
 
 Definition quiet_keeps l (c : commit) : forallb quiet c = true -> Forall (op_keeps l) c.
@@ -966,8 +1034,11 @@ Lemma budget_move_refl s i : budget_move s s i.
 Proof. split; [reflexivity|]. split; [reflexivity|left; reflexivity]. Qed.
 
 Lemma budget_move_same s s' i :
-  budget_fields (w_stages s') = budget_fields (w_stages s) -> w_max_jumps s' = w_max_jumps s -> budget_move s s' i.
-Proof. intros E Em. destruct (same_budget s s' E Em i) as [H1 H2]. split; [exact Em|]. split; [exact H2|left; exact H1]. Qed.
+  same_rows (w_stages s) (w_stages s') -> w_max_jumps s' = w_max_jumps s -> i < length (w_stages s) -> budget_move s s' i.
+Proof. intros E Em Hi. destruct (same_budget s s' E Em i Hi) as [H1 H2]. split; [exact Em|]. split; [exact H2|left; exact H1]. Qed.
+
+Lemma budget_move_eq s s' i : w_stages s' = w_stages s -> w_max_jumps s' = w_max_jumps s -> budget_move s s' i.
+Proof. intros E Em. destruct (same_stages_budget s s' E Em i) as [H1 H2]. split; [exact Em|]. split; [exact H2|left; exact H1]. Qed.
 
 Lemma emax_of s i st : get_stage s i = Some st -> emax s i = effective_max_jumps s st.
 Proof. unfold emax. intros ->. reflexivity. Qed.
@@ -977,16 +1048,16 @@ Proof. revert k. induction l as [|a l IH]; intros [|k] H; simpl; try constructor
 
 Lemma jump_commits_budget s0 s id j tg jctx i k :
   w_stages s0 = w_stages s -> w_max_jumps s0 = w_max_jumps s ->
-  ~ (tg = i /\ j <> i) ->
+  ~ (tg = i /\ j <> i) -> i < length (w_stages s) ->
   budget_move s (apply_commits (firstn k (h_commits (handle_jump s id j tg jctx))) s0) i.
 Proof.
-  intros Est Em Hnf.
+  intros Est Em Hnf Hlen.
   assert (forall c, Forall (op_keeps (w_stages s)) c -> budget_move s (apply_commits (firstn k [c]) s0) i) as Hkeep.
-  { intros c Hc. apply budget_move_same; [|rewrite maxj_commits; exact Em].
-    apply commits_keep; [rewrite Est; reflexivity|]. apply Forall_firstn'. constructor; [exact Hc|constructor]. }
+  { intros c Hc. apply budget_move_same; [|rewrite maxj_commits; exact Em|exact Hlen].
+    apply commits_keep; [rewrite Est; apply same_rows_refl|]. apply Forall_firstn'. constructor; [exact Hc|constructor]. }
   destruct (get_stage s j) as [src|] eqn:Hs.
   2:{ rewrite jump_unknown_source by exact Hs. cbn [h_commits ok]. rewrite firstn_nil. cbn [apply_commits].
-      apply budget_move_same; [rewrite Est; reflexivity|exact Em]. }
+      apply budget_move_eq; [exact Est|exact Em]. }
   destruct (w_canceled s) eqn:Hc.
   { rewrite (jump_canceled_noop s id j tg jctx src Hs Hc). cbn [h_commits ok]. apply Hkeep. constructor; [exact I|constructor]. }
   assert (Forall (op_keeps (w_stages s)) (fail_source_commit id j)) as Hfail.
@@ -997,7 +1068,7 @@ Proof.
   { rewrite (jump_exhausted_commit s id j tg jctx src tgt Hs Hc Ht Hx). cbn [h_commits ok]. apply Hkeep, Hfail. }
   destruct (jump_exact s id j tg jctx src tgt Hs Hc Ht Hx) as [c [E [_ [_ [_ [_ [_ Heff]]]]]]].
   rewrite E. destruct k as [|k].
-  { cbn [firstn apply_commits]. apply budget_move_same; [rewrite Est; reflexivity|exact Em]. }
+  { cbn [firstn apply_commits]. apply budget_move_eq; [exact Est|exact Em]. }
   cbn [firstn]. rewrite firstn_nil. cbn [apply_commits].
   split; [rewrite maxj_commit; exact Em|].
   assert (forall x, get_stage (apply_commit s0 c) x = option_map (jump_effect s src j tg jctx x) (get_stage s x)) as Hg.
@@ -1020,18 +1091,16 @@ Definition foreign_jump_into (s : state) (i : nat) (a : action) : Prop :=
   end.
 
 Lemma budget_move_then_same s s2 s3 i :
-  budget_move s s2 i -> budget_fields (w_stages s3) = budget_fields (w_stages s2) -> w_max_jumps s3 = w_max_jumps s2 ->
+  budget_move s s2 i -> w_stages s3 = w_stages s2 -> w_max_jumps s3 = w_max_jumps s2 ->
   budget_move s s3 i.
 Proof.
-  intros [M1 [M2 M3]] E Em. destruct (same_budget s2 s3 E Em i) as [H1 H2].
+  intros [M1 [M2 M3]] E Em. destruct (same_stages_budget s2 s3 E Em i) as [H1 H2].
   split; [congruence|]. split; [congruence|]. rewrite H1. exact M3.
 Qed.
 
 Lemma quiet_commits_same cs : Forall (fun c => forallb quiet c = true) cs -> forall s,
-  budget_fields (w_stages (apply_commits cs s)) = budget_fields (w_stages s).
-Proof.
-  intros H s. apply commits_keep; [reflexivity|]. eapply Forall_impl; [|exact H]. intros c Hc. apply quiet_keeps. exact Hc.
-Qed.
+  w_stages (apply_commits cs s) = w_stages s.
+Proof. intros H s. rewrite stages_apply_commits. apply fold_stages_quiet. exact H. Qed.
 
 Lemma apply_commits_app a b s : apply_commits (a ++ b) s = apply_commits b (apply_commits a s).
 Proof. revert s. induction a as [|c a IH]; simpl; intros s; [reflexivity|apply IH]. Qed.
@@ -1039,16 +1108,17 @@ Proof. revert s. induction a as [|c a IH]; simpl; intros s; [reflexivity|apply I
 Lemma delivery_budget orc s id do_ack d i k :
   delivery_commits orc s id do_ack = Some d ->
   ~ (exists r j c o, find_row s id = Some r /\ q_msg r = MJumpToStage j i c o /\ j <> i) ->
+  i < length (w_stages s) ->
   budget_move s (apply_commits (firstn k (d_rest d)) (apply_pre (d_pre d) (apply_commit s (d_poll d)))) i.
 Proof.
   unfold delivery_commits. destruct (find_row s id) as [r0|] eqn:Hr; [|discriminate].
   destruct (queue_max_attempts <=? q_attempts r0)%Z; [discriminate|].
   set (s1 := bump_attempts id s).
   destruct (mem_nat id (w_processed s1)).
-  - intros H Hnf. inversion H. cbn [d_rest d_pre d_poll].
-    apply budget_move_same; [|rewrite maxj_commits; reflexivity].
+  - intros H Hnf Hlen. inversion H. cbn [d_rest d_pre d_poll].
+    apply budget_move_eq; [|rewrite maxj_commits; reflexivity].
     rewrite quiet_commits_same; [reflexivity|]. apply Forall_firstn'. destruct do_ack; repeat constructor.
-  - intros H Hnf. inversion H. cbn [d_rest d_pre d_poll]. clear H.
+  - intros H Hnf Hlen. inversion H. cbn [d_rest d_pre d_poll]. clear H.
     set (r := {| q_id := id; q_msg := q_msg r0; q_attempts := q_attempts r0 + 1 |}).
     set (tail := if h_raised (handle orc s1 r) then [] else [OMark id] :: (if do_ack then [[OAck id]] else [])).
     assert (Forall (fun c => forallb quiet c = true) tail) as Htail.
@@ -1056,32 +1126,48 @@ Proof.
     rewrite firstn_app, apply_commits_app.
     destruct (jump_msg (q_msg r0)) eqn:Hj.
     + (* a JumpToStage message *)
-      unfold handle. cbn [q_msg q_id r]. destruct (q_msg r0) as [| | | | | | | | | |j tg c o| | | |] eqn:Hm; simpl in Hj; try discriminate Hj.
+      unfold handle. cbn [q_msg q_id r]. destruct (q_msg r0) as [| | | | | | | | | |j tg c o| | | | |] eqn:Hm; simpl in Hj; try discriminate Hj.
       rewrite pre_jump. cbn [apply_pre].
       apply budget_move_then_same with (apply_commits (firstn k (h_commits (handle_jump s1 id j tg c))) s1).
       * change (budget_move s1 (apply_commits (firstn k (h_commits (handle_jump s1 id j tg c))) s1) i).
-        apply jump_commits_budget; [reflexivity|reflexivity|].
+        apply jump_commits_budget; [reflexivity|reflexivity| |exact Hlen].
         intros [-> Hne]. apply Hnf. exists r0, j, c, o. auto.
       * apply quiet_commits_same. apply Forall_firstn'. exact Htail.
       * apply maxj_commits.
-    + apply budget_move_same; [|rewrite !maxj_commits, maxj_pre; reflexivity].
+    + apply budget_move_same; [|rewrite !maxj_commits, maxj_pre; reflexivity|exact Hlen].
       rewrite quiet_commits_same by (apply Forall_firstn'; exact Htail).
-      apply commits_keep.
-      * destruct (h_pre (handle orc s1 r)) as [[? ?]|]; reflexivity.
+      apply (commits_keep (w_stages s1)).
+      * destruct (h_pre (handle orc s1 r)) as [[? ?]|]; apply same_rows_refl.
       * apply Forall_firstn'. apply (keeps_handle orc s1 r). exact Hj.
 Qed.
 
-Theorem step_budget orc s a i : ~ foreign_jump_into s i a -> budget_move s (step orc s a) i.
+Theorem step_budget orc s a i :
+  i < length (w_stages s) -> ~ foreign_jump_into s i a -> budget_move s (step orc s a) i.
 Proof.
-  intros Hnf. destruct a; cbn [step];
-    try (apply budget_move_same; reflexivity);
-    try (unfold recover; apply budget_move_same; [|apply maxj_commit];
+  intros Hlen Hnf. destruct a; cbn [step];
+    try (apply budget_move_eq; reflexivity);
+    try (unfold recover; apply budget_move_eq; [|apply maxj_commit];
          rewrite stages_apply_commit, stages_after_quiet by apply quiet_pushes; reflexivity).
   - destruct (delivery_commits orc s id do_ack) as [d|] eqn:Hd; [|apply budget_move_refl].
-    rewrite <- (firstn_all (d_rest d)). apply (delivery_budget orc s id do_ack d i _ Hd Hnf).
+    rewrite <- (firstn_all (d_rest d)). apply (delivery_budget orc s id do_ack d i _ Hd Hnf Hlen).
   - destruct k as [|k']; [apply budget_move_refl|].
     destruct (delivery_commits orc s id true) as [d|] eqn:Hd; [|apply budget_move_refl].
-    apply (delivery_budget orc s id true d i _ Hd Hnf).
+    apply (delivery_budget orc s id true d i _ Hd Hnf Hlen).
+Qed.
+
+(* no step removes a stage row *)
+Lemma step_length orc s a : length (w_stages s) <= length (w_stages (step orc s a)).
+Proof.
+  assert (forall d, length (w_stages s) <= length (w_stages (apply_pre (d_pre d) (apply_commit s (d_poll d))))) as Hp.
+  { intros d. replace (w_stages (apply_pre (d_pre d) (apply_commit s (d_poll d)))) with (w_stages (apply_commit s (d_poll d)))
+      by (destruct (d_pre d) as [[? ?]|]; reflexivity).
+    rewrite stages_apply_commit. apply stages_after_length. }
+  destruct a; cbn [step]; try (simpl; lia);
+    try (unfold recover; rewrite stages_apply_commit; apply stages_after_length).
+  - destruct (delivery_commits orc s id do_ack) as [d|]; [|lia].
+    eapply Nat.le_trans; [apply (Hp d)|apply commits_length].
+  - destruct k as [|k']; [lia|]. destruct (delivery_commits orc s id true) as [d|]; [|lia].
+    eapply Nat.le_trans; [apply (Hp d)|apply commits_length].
 Qed.
 
 (* along a run without foreign jumps into i: the number of steps that raise i's count, and the final count *)
@@ -1098,15 +1184,16 @@ Fixpoint raises (orc : oracle) (s : state) (i : nat) (acts : list action) : nat 
   end.
 
 Theorem run_budget orc i acts : forall s,
-  no_foreign orc s i acts ->
+  i < length (w_stages s) -> no_foreign orc s i acts ->
   raises orc s i acts <= Z.to_nat (emax s i - cnt s i) /\
   (cnt s i <= cnt (run orc s acts) i)%Z /\ (cnt (run orc s acts) i <= Z.max (cnt s i) (emax s i))%Z /\
   emax (run orc s acts) i = emax s i.
 Proof.
-  unfold run. induction acts as [|a acts IH]; intros s H; simpl.
+  unfold run. induction acts as [|a acts IH]; intros s Hlen H; simpl.
   - repeat split; lia.
-  - destruct H as [H1 H2]. destruct (step_budget orc s a i H1) as [_ [Me Mc]].
-    destruct (IH _ H2) as [I1 [I2 [I3 I4]]]. rewrite Me in *.
+  - destruct H as [H1 H2]. destruct (step_budget orc s a i Hlen H1) as [_ [Me Mc]].
+    assert (i < length (w_stages (step orc s a))) as Hlen' by (pose proof (step_length orc s a); lia).
+    destruct (IH _ Hlen' H2) as [I1 [I2 [I3 I4]]]. rewrite Me in *.
     destruct Mc as [Mc|[Mc Hlt]]; rewrite Mc in *.
     + rewrite Z.ltb_irrefl. repeat split; try lia; try exact I4.
     + replace (cnt s i <? cnt s i + 1)%Z with true by (symmetry; apply Z.ltb_lt; lia). repeat split; try lia; try exact I4.
